@@ -21,8 +21,7 @@ ASSUMPTIONS = [
   "other active objects and the fabric: their run flags are separate objects the translated stop() never touches (checked on the translated program: it has no "
   "operation on them)",
 ]
-OUTSIDE = ["a caller blocked on a full wake-up token queue after the consumer is gone (capacity race, outside C05/C16's claims as well)",
-           "more than 2 timed sources, more than 2 firings each, schedules longer than K", "stop() racing with a concurrent timed post that is being created (E1 part of C31)"]
+OUTSIDE = ["more than 2 timed sources, more than 2 firings each, schedules longer than K", "stop() racing with a concurrent timed post that is being created (E1 part of C31)"]
 EXPLANATION = ("Bounded model checking (QF_BV) over every schedule of caller x consumer x timer threads: after stop() has returned the object's thread has ended, "
                "no dispatch happens, every tracked source has its run flag down and is untracked, no timer posts after a fresh look at its flag, nobody crashes, "
                "and stop() is not blocked for ever; stop() from a handler ends the thread after the current step (no later dispatch). The remaining window - a "
@@ -182,7 +181,7 @@ def specs(tier):
       out.append(dict(scenario=SCN, kwargs=kw, kind="reach", K=K + 8, pred="returned", timeout=to))
       out.append(dict(scenario=SCN, kwargs=kw, kind="safety", K=K, pred="stop_bad", timeout=to, replay="stopping_replay"))
       out.append(dict(scenario=SCN, kwargs=kw, kind="safety", K=K, pred="late_stale", timeout=to, replay="stopping_replay"))
-      out.append(dict(scenario=SCN, kwargs=kw, kind="deadlock", K=K, pred="caller_stuck_not_capacity", timeout=to, replay="stopping_replay"))
+      out.append(dict(scenario=SCN, kwargs=kw, kind="deadlock", K=K, pred="caller_open", timeout=to, replay="stopping_replay"))
   return out
 
 
